@@ -1617,10 +1617,8 @@ func (k *Kernel) sendPHCheckResponse(ctx context.Context, s *kState, req PHCheck
 		} else if pbRound == votingRound+1 {
 			k.setPHCheckStatus(s, req, &resp, s.NextRound, ViewIDNextRound)
 		} else {
-			panic(fmt.Errorf(
-				"TODO: handle proposed block with round (%d) beyond voting round (%d)",
-				pbRound, votingRound,
-			))
+			// Beyond the next round: we do not track a view for it.
+			resp.Status = PHCheckRoundTooFarInFuture
 		}
 	} else if pbHeight == votingHeight+1 {
 		// Special case of the proposed block being for the next height.
